@@ -9,7 +9,7 @@ git -C /repo worktree add --detach "$WT" HEAD >/dev/null 2>&1 || { echo "worktre
 cleanup() { git -C /repo worktree remove --force "$WT" >/dev/null 2>&1; rm -rf "$WT"; }
 trap cleanup EXIT
 run_demo() { # $1 = flags ; prints PASS/FAIL
-  g++ -std=c++17 -O1 -g $1 -I"$WT/include" "$SD/demo.cpp" -o "$WT/demo.bin" -pthread >"$WT/demo.build.log" 2>&1 || { echo BUILDFAIL; return; }
+  g++ -std=c++17 -O1 -g $1 -I"$WT/include" -I"$WT/include/momo" "$SD/demo.cpp" -o "$WT/demo.bin" -pthread >"$WT/demo.build.log" 2>&1 || { echo BUILDFAIL; return; }
   ( cd "$WT" && timeout 300 ./demo.bin >"$WT/demo.out" 2>&1 ); rc=$?
   if [ $rc -eq 0 ] && ! grep -q -E "FAIL|ERROR: (Address|Thread|Undefined)Sanitizer|runtime error" "$WT/demo.out"; then echo PASS; else echo "FAIL(rc=$rc)"; fi
 }
@@ -22,7 +22,7 @@ for FL in "" "-fsanitize=address,undefined -fno-sanitize-recover=all" "-fsanitiz
   result_flags="$FL"
   if [ "$before" = "PASS" ] && [ "${after#FAIL}" != "$after" ]; then break; fi
 done
-suite="skipped"
+suite="${SUITE_KNOWN:-skipped}"
 if [ "$SKIP" != "--skip-suite" ]; then
   cmake -S "$WT" -B "$WT/_build" -G Ninja -DMOMO_TEST=ON -DCMAKE_BUILD_TYPE=RelWithDebInfo >/dev/null 2>&1
   cmake --build "$WT/_build" -j 8 >"$WT/suite.build.log" 2>&1 && suite=$("$WT/_build/test/momo_test" 2>/dev/null | grep -c ": ok") || suite="buildfail"
